@@ -8,6 +8,7 @@ import multiprocessing as mp
 import os
 import subprocess
 import sys
+import shutil
 import tempfile
 import time
 import traceback
@@ -58,6 +59,22 @@ def _worker(args):
 
 
 def run_tasks(modname, tasks, patches=None, nproc=None):
+    """all tasks of one exploration; they share a scratch directory (VERIF_RUN_DIR) through which the harnesses count the
+    counterexample models found per violation key, so that a broken tree does not pay for hundreds of models of one defect"""
+    rd = tempfile.mkdtemp(prefix='verif_run_')
+    old = os.environ.get('VERIF_RUN_DIR')
+    os.environ['VERIF_RUN_DIR'] = rd
+    try:
+        return _run_tasks(modname, tasks, patches, nproc)
+    finally:
+        if old is None:
+            os.environ.pop('VERIF_RUN_DIR', None)
+        else:
+            os.environ['VERIF_RUN_DIR'] = old
+        shutil.rmtree(rd, ignore_errors=True)
+
+
+def _run_tasks(modname, tasks, patches=None, nproc=None):
     nproc = nproc or NPROC
     args = [(modname, t, patches) for t in tasks]
     if not args:
